@@ -418,6 +418,20 @@ Qed.
 
 (** a consumer that reads to EOF through the resumable reader gets the stored
     object itself (used by the Restore model): *)
+Theorem rr_read_all_whole_gen : forall (A : Type) (file : list A) (size fuel plen : nat) (opened : bool)
+    (sched : list outcome) d,
+  rr_read_all file size fuel plen (rr_init opened) sched [] = Some d ->
+  d = firstn (length d) file /\ length d <= length file /\ (0 < size -> size <= length d) /\
+  (0 < size -> size = length file -> d = file).
+Proof.
+  intros A file size fuel plen opened sched d H.
+  destruct (rr_read_all_spec file size fuel plen _ _ _ _ (rinv_init file opened) H) as (k & K1 & K2 & K3).
+  assert (O : r_off (rr_init opened) = 0) by reflexivity. rewrite O in *.
+  simpl in *. assert (L : length d = k) by (rewrite K1; apply serve_length; lia).
+  rewrite L. split; [exact K1|]. split; [lia|]. split; [exact K3|].
+  intros Hs ->. rewrite K1. unfold serve. simpl. apply firstn_all2. specialize (K3 Hs). lia.
+Qed.
+
 Theorem rr_read_all_whole : forall (A : Type) (file : list A) (size fuel plen : nat)
     (sched : list outcome) d,
   rr_read_all file size fuel plen (rr_init false) sched [] = Some d ->
